@@ -27,9 +27,10 @@ ToEv(j) ==
    roomserver |-> j.roomserver, idserver |-> j.idserver,
    c |-> [membership |-> j.membership, jauth |-> U(j.jauth, j.jserver),
           tpi |-> [present |-> j.tpi.present, signed |-> j.tpi.signed, hasmxid |-> j.tpi.hasmxid, hastoken |-> j.tpi.hastoken,
-                   mxid |-> U(j.tpi.mxid, j.tpi.mxidserver), token |-> j.tpi.token, sigok |-> j.tpi.sigok],
+                   mxid |-> U(j.tpi.mxid, j.tpi.mxidserver), token |-> j.tpi.token, sigkey |-> j.tpi.sigkey],
           hascreator |-> j.hascreator, creator |-> U(j.creator, j.cserver), federate |-> j.federate, join_rule |-> j.join_rule,
-          pl |-> ToPL(j.pl), redactsserver |-> j.redactsserver]]
+          pl |-> ToPL(j.pl), redactsserver |-> j.redactsserver,
+          tpikeys |-> [top |-> j.tpitop, list |-> Range(j.tpilist)]]]
 StateOfRec(r) == LET evs == {ToEv(x) : x \in Range(r.st)} IN
                  [k \in {K(x.type, x.key) : x \in evs} |-> CHOOSE x \in evs : K(x.type, x.key) = k]
 Verdict(r) == Auth(StateOfRec(r), ToEv(r.e), RV(r.v))
